@@ -275,6 +275,8 @@ def run(check, an: Analysis):
     check.instance('T', 'disjoint', not (tables['SUPPRESS_CONCURRENT'] &
                                          tables['PROMOTE_CONCURRENT']),
                    where_fn(an.method(SCOPE, '__init__')), 'no type is in both tables')
+    from . import _scope as _sc
+    _sc.check_scope_core(check, an, skip=('foreign', 'copies'))
     check.stats.update(an.stats())
 
 
